@@ -71,6 +71,13 @@ Theorem C09_lock_wait : forall c s i k,
 Proof. exact CallLifeProofs.lock_wait. Qed.
 Print Assumptions C09_lock_wait.
 
+(* the bounds above are not vacuous: the model never blocks the clock for good (finitely many local steps, no tick, lead
+   to a state in which the clock can tick) *)
+Theorem C09_no_timelock : forall c s, exists ls s',
+  run c s ls = Some s' /\ now s' = now s /\ ~ In Tick ls /\ step c s' Tick <> None.
+Proof. exact CallLifeProofs.no_timelock. Qed.
+Print Assumptions C09_no_timelock.
+
 (* ---------- clause 2: the result is the reply, an error, or the timeout error ---------- *)
 Theorem C09_outcome : forall c s i k, reach c s -> nth_error (calls s) i = Some k -> k_pc k = Returned ->
   exists o, k_out k = Some o /\
